@@ -187,7 +187,7 @@ Section C17.
   Proof.
     induction cache as [|p rest IH]; intros o c H; cbn [drain_cache fst].
     - split; [apply H; reflexivity|reflexivity].
-    - set (o0 := mk_or _ _ _ (List.rev rest) _ _ _ _ _ _ _ _ _ _ _ _ _ _ _ _ _ _).
+    - set (o0 := mk_or _ _ _ rest _ _ _ _ _ _ _ _ _ _ _ _ _ _ _ _ _ _).
       pose proof (ckc_push_to_block p o0 c) as K.
       destruct (push_to_block E p o0 c) as [[o1|o1] c1]; cbn [fst res_obj] in K.
       + destruct K as [Mx K].
@@ -204,9 +204,9 @@ Section C17.
   Lemma ckc_push_from_cache o c : cache_keep_or_clear o (fst (push_from_cache E o c)).
   Proof.
     unfold push_from_cache. destruct (cache_replay_blocked o); [apply ckc_refl|].
-    destruct (drain_cache_clears (List.rev (r_cache o)) o c) as [D1 D2].
-    { intros H. apply (f_equal (@List.rev apkt)) in H. rewrite rev_involutive in H. exact H. }
-    destruct (drain_cache E (List.rev (r_cache o)) o c) as [o1 c1]. cbn [fst] in *.
+    destruct (drain_cache_clears (r_cache o) o c) as [D1 D2].
+    { intros H. exact H. }
+    destruct (drain_cache E (r_cache o) o c) as [o1 c1]. cbn [fst] in *.
     split; cbn; [exact D2|right; split; [exact D1|reflexivity]].
   Qed.
 
